@@ -40,6 +40,10 @@ func newVerifSystem(cartType, romCode, ramCode uint8) *verifSystem {
 }
 
 func newVerifSystemW(cartType, romCode, ramCode uint8, w *verifWriter) *verifSystem {
+	return newVerifSystemImg(verifImage(cartType, romCode, ramCode), w)
+}
+
+func newVerifSystemImg(img []byte, w *verifWriter) *verifSystem {
 	s := &verifSystem{}
 	s.intr = interrupts.New()
 	s.o = oam.New()
@@ -52,7 +56,7 @@ func newVerifSystemW(cartType, romCode, ramCode uint8, w *verifWriter) *verifSys
 	}
 	s.t = timer.New()
 	s.c = controller.New()
-	s.img = verifImage(cartType, romCode, ramCode)
+	s.img = img
 	s.m = New(s.img, s.intr, s.o, s.p, s.c, s.s, s.t, s.a)
 	return s
 }
@@ -98,7 +102,7 @@ func cartInv(c mbc) bool {
 	case *mbc2:
 		return int(m.romBank) < len(m.rom)
 	case *mbc3:
-		return int(m.romBank) < len(m.rom) && m.ramBank <= 0x0c // selectors 0D-0F are C11's subject
+		return int(m.romBank) < len(m.rom) && m.ramBank <= 0x0f // every 4-bit selector a guest can write
 	case *mbc5:
 		return int(m.romBank) < len(m.rom) && int(m.ramBank) < len(m.ram)
 	}
